@@ -56,6 +56,12 @@ def qEOf (isVISF : Bool) (p : VISF α) (t T_top p_vap : α) : α :=
     -(Gen.vapour_flux p.kappa p.m_water p.k_B p.p_vac p_vap T_top T_top) * p.dHe
   else Num.zero
 
+/-- the same with the vapour flux `N_w` left open: `q_e = -N_w dHe` for VISF strictly inside the
+window, else 0.  This is the shape shared with the run models (`Snow.qEvap`, `S2D.qEvap`), which
+evaluate the flux with their own transcription of `vapour_flux`. -/
+def qEWith (isVISF : Bool) (p : VISF α) (t N_w : α) : α :=
+  if isVISF && inWindow p t then (-N_w) * p.dHe else Num.zero
+
 /-- `q_e` of one step -/
 def qE (isVISF : Bool) (p : VISF α) (s : Stage) (t T_top : α) : α :=
   qEOf isVISF p t T_top (pVap s T_top)
